@@ -6,6 +6,7 @@ CONSTANTS
   MaxLen = 6
   MaxOps = 4
   Variant = "bisect"
+  Sharing = "copy"
   InitSets <- MCInitSets
 INVARIANT TypeOK
 INVARIANT Ascending
@@ -15,6 +16,8 @@ INVARIANT InterceptsFresh
 INVARIANT ZeroAtZero
 INVARIANT Continuous
 INVARIANT Unique
+INVARIANT FrozenConsistent
+PROPERTY FrozenUntouched
 PROPERTY InsertRefines
 PROPERTY PopRefines
 VIEW View
